@@ -4,7 +4,7 @@
  * predecessor_cache, F's forwarder task); when a body finishes F pulls the next message from Q (try_get) and, when Q is empty, gives the
  * edge back (Q.register_successor(F): Q's forwarder task). Concrete operation list OPS:
  *   1 external try_put(v) to Q     2 / 3 a worker runs the oldest / newest spawned task    8 ... a solver-chosen one (oldest or newest)
- *   5 graph cancelled (workers call cancel() from now on)
+ *   5 graph cancelled (workers call cancel() from now on)      9 make_edge(Q, F) (scenarios with LATEEDGE: the edge is made while messages are already buffered)
  * Oracle: every message put to Q reaches F's body exactly once (no loss, no duplicate, payload intact), in put order when F is serial;
  * never more live body tasks / running bodies than CONC; every body output is offered exactly once to the sink; the edge is in exactly
  * one mode between operations (Q's successor list + F's predecessor cache hold it exactly once); graph wait count == live tasks
@@ -37,6 +37,7 @@ enum { ST_NONE = 0, ST_ACCEPTED, ST_RUNNING, ST_DONE };
 static int msg_v[MAXM]; static int msg_st[MAXM]; static unsigned nmsg, off[MAXM];
 static unsigned outc, running, nbody, cancelled, in_task, fifo_next;
 static unsigned live_ext; static u8 owner_arena[TASKMAX];
+static unsigned have_edge;
 static unsigned pull_seen, back_seen;   /* vacuity guards: the edge was seen in pull mode / handed back to push mode afterwards */
 struct S_class_tbb__detail__d1__wait_tree_vertex_interface* _ZN3tbb6detail2r127get_thread_reference_vertexEPNS0_2d126wait_tree_vertex_interfaceE(struct S_class_tbb__detail__d1__wait_tree_vertex_interface* top) {
   if ((u8*)top != vp_graph_vertex()) return top;   /* (the sample task of vp_init_sample: second graph, not under test) */
@@ -58,10 +59,10 @@ u32 vp_body(u32 uv) {
 #endif
   VP_ASSERT(vp_graph_refs() == refs_expected() && vp_graph_refs() >= 1, "graph wait count wrong while a body runs");
   msg_st[k] = ST_DONE; nbody++; running--;
-  return (u32)v + outc;
+  return (u32)v ^ outc;
 }
 u32 vp_sink(u32 id, u32 o) {
-  int k = find_v((int)(o - outc));
+  int k = find_v((int)(o ^ outc));
   VP_ASSERT(id == 0 && k >= 0 && msg_st[k] == ST_DONE, "sink offered something that is not the output of a finished body");
   VP_ASSERT(off[k] == 0, "output offered twice to the successor"); off[k]++;
   VP_ASSERT(vp_graph_refs() >= 1, "graph wait count is 0 while a message is in transit");
@@ -85,7 +86,7 @@ static void settled(void) {
     if (CONC != 0) { VP_ASSERT(live_body_tasks() <= CONC, "more live body tasks than the concurrency limit");
       VP_ASSERT(vp_conc() == live_body_tasks(), "F's concurrency count differs from the number of live body tasks (slot leaked / released twice)"); }
     if (vp_f_npred() == 1) pull_seen = 1; else if (pull_seen) back_seen = 1;
-    VP_ASSERT(vp_q_nsucc() + vp_f_npred() == 1, "the edge Q->F is held by neither side (messages would be stuck) or by both");
+    VP_ASSERT(vp_q_nsucc() + vp_f_npred() == have_edge, "the edge Q->F is held by neither side (messages would be stuck) or by both");
     for (unsigned k = 0; k < nmsg; k++) if (msg_st[k] == ST_DONE) VP_ASSERT(off[k] == 1, "a body output was not offered to the successor (lost)");
   }
 }
@@ -94,8 +95,13 @@ static void run(void) {
   nmsg = 0; running = nbody = cancelled = in_task = fifo_next = 0; live_ext = 0;
   for (unsigned i = 0; i < MAXM; i++) { msg_st[i] = ST_NONE; off[i] = 0; }
   for (unsigned i = 0; i < TASKMAX; i++) owner_arena[i] = 0xff;
-  outc = (unsigned)vp_nd(); __CPROVER_assume(outc != 0);
-  vp_init(CONC); vp_refv_init(0); vp_init_sample();
+  outc = 0x40000000u;   /* concrete: with a symbolic mask the solver has to re-derive (v ^ c) ^ c == v bit by bit inside every message identification */
+#ifdef LATEEDGE
+  vp_init(CONC, 0); have_edge = 0;
+#else
+  vp_init(CONC, 1); have_edge = 1;
+#endif
+  vp_refv_init(0); vp_init_sample();
   for (int i = 0; i < 2; i++) run_one(0);      /* forwarder spawned by make_edge */
   settled();
   for (int s = 0; s < NOPS; s++) {
@@ -109,13 +115,14 @@ static void run(void) {
     else if (op == 3) run_one(1);
     else if (op == 8) run_one(vp_nd_bool());
     else if (op == 5) cancelled = 1;
+    else if (op == 9) { if (!have_edge) { vp_make_edge(); have_edge = 1; } }
     settled();
   }
   for (int i = 0; i < BAGRUNS; i++) { run_one(0); settled(); }
   VP_ASSERT(bag_n == 0, "VP bound: tasks still pending after BAGRUNS executions");
   VP_ASSERT(vp_graph_refs() == 0, "graph wait count not back to 0 although nothing is pending");
   VP_ASSERT(n_alloc[0] == n_free, "a finished task was not deallocated / deallocated twice");
-  if (!cancelled) {
+  if (!cancelled && have_edge) {
     for (unsigned k = 0; k < nmsg; k++) VP_ASSERT(msg_st[k] == ST_DONE, "a message put to the queue_node was never processed by the function_node (lost / stuck at the edge)");
     VP_ASSERT(vp_qsize() == 0, "queue_node not empty at quiescence");
     VP_ASSERT(CONC == 0 || vp_conc() == 0, "concurrency count not back to 0 at quiescence");
